@@ -12,7 +12,7 @@ def cfgs(ctx):
         return [("Traversal_path4.cfg", None, None), ("Traversal_wide2.cfg", None, None),
                 ("Traversal_sim.cfg", "num=50", 8)]
     return [("Traversal_path5.cfg", None, None), ("Traversal_narrow3.cfg", None, None), ("Traversal_wide2.cfg", None, None), ("Traversal_plan3.cfg", None, None),
-            ("Traversal_sim.cfg", "num=3000", 8)]
+            ("Traversal_sim.cfg", "num=1000", 8)]
 
 
 def run(ctx):
